@@ -50,9 +50,9 @@ func TestVerifC13Handshake(t *testing.T) {
 				continue // parrots pin their own ClientHello (no session cache) and version
 			}
 			cases = append(cases, c13Case{Name: fmt.Sprintf("clean/%s/%s", sc, cl), Scenario: sc, Client: cl})
-			n := l.Pick(6, 10)
+			n := l.Pick(8, 10)
 			if cl != "plain" && l.Quick() {
-				n = 3
+				n = 5
 			}
 			for d := 0; d < 2; d++ {
 				for o := 0; o < n; o++ {
@@ -70,7 +70,7 @@ func TestVerifC13Handshake(t *testing.T) {
 			for _, inj := range injects {
 				for _, when := range []string{"before", "after"} {
 					cases = append(cases, c13Case{Name: fmt.Sprintf("inject/%s/%s/%s/%s", sc, cl, inj, when), Scenario: sc, Client: cl, Inject: inj, When: when})
-					if l.Thorough() || cl == "plain" {
+					{
 						// the same injection combined with a loss on the genuine exchange
 						for _, o := range []int{0, 1} {
 							cases = append(cases, c13Case{Name: fmt.Sprintf("inject+loss/%s/%s/%s/%s/s2c-o%d", sc, cl, inj, when, o), Scenario: sc, Client: cl, Inject: inj, When: when,
@@ -100,15 +100,23 @@ func TestVerifC13Handshake(t *testing.T) {
 			}
 		}
 	}
-	if l.Thorough() {
+	{
+		// seeded schedules of two and three faults, over every client kind the scenario allows
 		rng := l.Rand("c13k2")
-		for i := 0; i < 40000; i++ {
+		for i := 0; i < l.Pick(15000, 200000); i++ {
 			sc := scen[rng.IntN(len(scen))]
+			cl := "plain"
+			switch sc {
+			case "vneg", "0rtt-accept", "0rtt-reject", "resume":
+				cl = []string{"plain", "unil"}[rng.IntN(2)]
+			default:
+				cl = []string{"plain", "unil", "Chrome_115_IPv4", "Firefox_116A"}[rng.IntN(4)]
+			}
 			var fs []simworld.Fault
-			for j := 0; j < 2; j++ {
+			for j := 0; j < 2+rng.IntN(2); j++ {
 				fs = append(fs, simworld.Fault{Dir: wiretap.Dir(rng.IntN(2)), Ordinal: rng.IntN(10), Action: acts[rng.IntN(len(acts))]})
 			}
-			cases = append(cases, c13Case{Name: fmt.Sprintf("k2/%s/%04d", sc, i), Scenario: sc, Client: "plain", Sched: simworld.Schedule{Faults: fs}})
+			cases = append(cases, c13Case{Name: fmt.Sprintf("k%d/%s/%s/%04d", len(fs), sc, cl, i), Scenario: sc, Client: cl, Sched: simworld.Schedule{Faults: fs}})
 		}
 	}
 	for i, cs := range cases {
@@ -337,6 +345,7 @@ func runC13(l *evlog.Log, c *evlog.Case, cs *c13Case, idx int) {
 	if cs.Scenario == "resume" || cs.Scenario == "0rtt-accept" || cs.Scenario == "0rtt-reject" {
 		saved := w.Router.GetOnEmit()
 		w.Router.SetOnEmit(nil)
+		w.Router.SuspendFaults(true)
 		ctx, cancel := context.WithTimeout(context.Background(), 20*time.Second)
 		done := make(chan *quic.Conn, 1)
 		go func() {
@@ -384,6 +393,7 @@ func runC13(l *evlog.Log, c *evlog.Case, cs *c13Case, idx int) {
 			w.EarlyLn = ln
 		}
 		w.Wire.ResetOrdinals()
+		w.Router.SuspendFaults(false)
 	}
 
 	// ---- the measured handshake
@@ -495,7 +505,18 @@ func runC13(l *evlog.Log, c *evlog.Case, cs *c13Case, idx int) {
 		n := earlyRead[payloadID]
 		earlyMu.Unlock()
 		used := out.sstate != nil && out.sstate.Used0RTT
+		// was the payload sent as 0-RTT at all?  (A client without a usable ticket falls back to a full
+		// handshake and sends it as ordinary 1-RTT data.)
+		var zeroRTTPackets int64
+		for _, tp := range w.Wire.Snapshot() {
+			zeroRTTPackets += tp.Counts["pkt_c->s_0-RTT"]
+		}
+		l.Count("client_0rtt_packets_on_wire", zeroRTTPackets)
+		if zeroRTTPackets == 0 {
+			l.Count("early_dial_without_0rtt_packets", 1)
+		}
 		switch {
+		case zeroRTTPackets == 0:
 		case n > 1:
 			viol("0rtt-data-delivered-twice", "the server application read the 0-RTT payload %d times", n)
 		case n == 1 && out.sstate != nil && !used:
